@@ -766,6 +766,10 @@ class ModelRunner(object):
                             run_feature = False
                 except KeyboardInterrupt:
                     self.abort(reason="KeyboardInterrupt")
+                    # -- ENSURE: Original stdout/stderr/logging are restored
+                    #    if a step (or step-hook) was interrupted while capturing.
+                    self.stop_capture()
+                    self.teardown_capture()
                     failed_count += 1
                     run_feature = False
 
